@@ -21,3 +21,10 @@ class VariableBoundBoundsMinPropagator(VariableBoundMinPropagator):
     def min(self):
         return (self.other.domain.range_l[0][0]+self.offset)
     
+
+    def propagate(self):
+        if len(self.other.domain.range_l) == 0:
+            # The other variable has no value left, so there is no
+            # bound to take from it. The solver reports the failure
+            return False
+        return super().propagate()
